@@ -679,6 +679,9 @@ fn boundary_contours(rng: &mut Rng, total: usize) -> Vec<Vec<Pt>> {
     let (mut px, mut py) = (0i32, 0i32);
     let real_rate = if total > 10000 { *rng.pick(&[40u64, 200]) } else { *rng.pick(&[10u64, 40, 200]) };
     let all_on = rng.chance(2, 3);
+    // no jump between the runs: one flag byte for hundreds of points across contours, so that repeat
+    // records reach the largest count (255) and span contours
+    let still = rng.chance(1, 3);
     while left > 0 {
         let mut c = vec![];
         if rng.chance(1, real_rate) || (left <= 12 && rng.chance(1, 2)) {
@@ -701,14 +704,20 @@ fn boundary_contours(rng: &mut Rng, total: usize) -> Vec<Vec<Pt>> {
                 _ => rng.range(170, 200) as usize,
             }
             .min(left);
-            let on = all_on || rng.chance(1, 2);
-            let (sx, sy) = *rng.pick(&[(0i32, 0i32), (0, 0), (0, 0), (1, 0), (0, 1), (-1, 0), (1, 1), (0, -1)]);
+            let on = all_on || (!still && rng.chance(1, 2));
+            let (sx, sy) = if still {
+                (0, 0)
+            } else {
+                *rng.pick(&[(0i32, 0i32), (0, 0), (0, 0), (1, 0), (0, 1), (-1, 0), (1, 1), (0, -1)])
+            };
             if px.abs() > 20000 || py.abs() > 20000 {
                 px = 0;
                 py = 0;
             }
-            px += rng.range(-200, 200) as i32;
-            py += rng.range(-200, 200) as i32;
+            if !still || rng.chance(1, 20) {
+                px += rng.range(-200, 200) as i32;
+                py += rng.range(-200, 200) as i32;
+            }
             for k in 0..np {
                 if k > 0 {
                     px += sx;
